@@ -2,6 +2,7 @@
 """Apply a seeded change to /repo, run checks, undo.  usage: run_seeded.py <seeded dir> [property ids ...]"""
 import json, os, subprocess, sys
 d = sys.argv[1]
+d = os.path.abspath(d)
 patch = os.path.join(d, 'patch.diff')
 meta = json.load(open(os.path.join(d, 'meta.json'))) if os.path.exists(os.path.join(d, 'meta.json')) else {}
 pids = sys.argv[2:] or [meta.get('property')]
